@@ -67,7 +67,7 @@ CLAUSES = {
     "unary -, abs, round(n); comparisons = comparisons of the values, == within the left operand's tolerance": "proved [ideal: C03_unary_compare_ideal (Angle-Angle all six; < > == vs float) + C03_operators_more_ideal (<= >= != vs float)]; comparisons with an int and reflected comparisons: searched",
     "to_positive in [0,360), congruent": "proved [ideal, all stored values in (-360,360): C03_views_ideal]; proved [B64, EVERY finite stored value in (-360,360): C03_to_positive_b64 - result in [0,360), = RN(360+d) (one rounding, error <= 2^-45 deg) or 0.0 when that rounds to 360.0 (only for -2^-45 <= d < 0, e.g. -1e-20)]; grid + searched",
     "rad = deg*pi/180, get_ra = deg/15, float(a) = a()": "proved [ideal: C03_views_ideal]; searched",
-    "binary64 rounding of the arithmetic (1e-9 degree scaled with magnitude) for all floats": "reduce_deg itself: proved exact for every finite float (C03_reduce_deg_b64); to_positive, Angle(x) and set_ra(x): proved for every finite float (C03_to_positive_b64, C03_construct_b64, C03_set_ra_b64: set_ra stores red360(RN(red360(x)*15)), one rounding <= 2^-41 deg); operators + - * / (plain, reflected, in-place; Angle, float and int |z| <= 2^53 operands): proved for EVERY finite float - the result is a new Angle holding exactly red360(RN(a op b)), one IEEE rounding then the exact reduction, strictly inside (-360,360), sign of the rounded result; Angle +- Angle never overflows and is congruent mod 360 to the exact real result within 2^-44 deg < 1e-9 deg (C03_addsub_b64); with scalars the theorem carries the explicit hypothesis that the IEEE operation does not overflow, and when it does overflow the operator raises OverflowError (never stores inf/nan) (C03_operators_b64); zero divisors C03_division_by_zero_b64.  Still grid + searched only in binary64: dms2deg (sexagesimal), %, **, round, comparisons; the relative-error form of the 1e-9 clause for * and / (follows from RN but not stated)",
+    "binary64 rounding of the arithmetic (1e-9 degree scaled with magnitude) for all floats": "reduce_deg itself: proved exact for every finite float (C03_reduce_deg_b64); to_positive, Angle(x) and set_ra(x): proved for every finite float (C03_to_positive_b64, C03_construct_b64, C03_set_ra_b64: set_ra stores red360(RN(red360(x)*15)), one rounding <= 2^-41 deg); operators + - * / (plain, reflected, in-place; Angle, float and int |z| <= 2^53 operands): proved for EVERY finite float - the result is a new Angle holding exactly red360(RN(a op b)), one IEEE rounding then the exact reduction, strictly inside (-360,360), sign of the rounded result; Angle +- Angle never overflows and is congruent mod 360 to the exact real result within 2^-44 deg < 1e-9 deg (C03_addsub_b64); with scalars the theorem carries the explicit hypothesis that the IEEE operation does not overflow, and when it does overflow the operator raises OverflowError (never stores inf/nan) (C03_operators_b64); zero divisors C03_division_by_zero_b64.  Still grid + searched only in binary64: dms2deg (sexagesimal), %, **, round, comparisons; (the 1e-9*max(1,|v|) congruence to the exact real result is part of C03_operators_b64 for all of + - * /, from |RN v - v| <= 2^-53|v| + 2^-1075)",
 }
 
 
